@@ -40,6 +40,14 @@ type ArrayMapSelector struct {
 	Value reflect.Value
 }
 
+// isLiteral tells whether the selector is a plain constant, as in Arr[2] or M["key"].
+func (e *ArrayMapSelector) isLiteral() bool {
+	expr := e.Expression
+
+	return expr != nil && expr.LeftExpression == nil && expr.RightExpression == nil && expr.SingleExpression == nil &&
+		expr.ExpressionAtom != nil && expr.ExpressionAtom.Constant != nil
+}
+
 // MakeCatalog will create a catalog entry from ArrayMapSelector node.
 func (e *ArrayMapSelector) MakeCatalog(cat *Catalog) {
 	meta := &ArrayMapSelectorMeta{
